@@ -160,7 +160,7 @@ TNext ==
 
 \* ---- bookkeeping (CONSTRAINT; always TRUE) ------------------------------------------
 RecordProgress ==
-    /\ IF l > TLCGet(tid) THEN TLCSet(tid, l) /\ TLCSet(2000 + tid, <<pc, t>>) ELSE TRUE
+    /\ IF l >= TLCGet(tid) THEN TLCSet(tid, l) /\ TLCSet(2000 + tid, <<pc, t>>) ELSE TRUE
     /\ IF bad # "" THEN TLCSet(1000 + tid, bad) ELSE TRUE
 
 \* POSTCONDITION: print one verdict line per trace; the harness decides.
